@@ -244,6 +244,27 @@ pub fn native_floats(cfg: &cgv_core::fw::RunCfg, extra: &mut cgv_core::fw::Extra
             }
         }
     }
+    // q * v for vectors near the end of the range (a component in (MAX/2, 3/4 MAX), the sentinel
+    // corners of an "empty" bounding box) and q the identity or a small rotation: the exact result
+    // is representable, so it must be finite and within the rotation angle of v
+    fn large_vector<T: BaseFloat>(tag: &str, which: usize, frac: f64, angle: f64, acc: &mut Acc, inputs: &dyn Fn() -> serde_json::Value) {
+        let f = |x: f64| T::from(x).unwrap();
+        let g = |x: T| x.to_f64().unwrap();
+        let big = T::max_value().to_f64().unwrap() * frac;
+        let mut c = [1.0f64, -2.0, 0.5];
+        c[which] = big;
+        let v = Vector3::new(f(c[0]), f(c[1]), f(c[2]));
+        let axis = Vector3::new(f(0.6), f(0.0), f(0.8));
+        let q = if angle == 0.0 { Quaternion::one() } else { Quaternion::from_axis_angle(axis, cgmath::Rad(f(angle))) };
+        let r = q * v;
+        let rr = [g(r.x), g(r.y), g(r.z)];
+        for (i, x) in rr.iter().enumerate() {
+            acc.truth(&format!("{tag} (q * v)[{i}] is not finite for v with a component of {big:e} and a rotation by {angle} rad"), x.is_finite(), inputs);
+        }
+        // (scaled before squaring: the components themselves are near the end of the range)
+        let d = (((rr[0] - g(v.x)) / big).powi(2) + ((rr[1] - g(v.y)) / big).powi(2) + ((rr[2] - g(v.z)) / big).powi(2)).sqrt() * big;
+        acc.check(&format!("{tag} |q*v - v| for a rotation by {angle} rad of a vector of length {big:e}"), d / big, 0.0, 1.5 * angle.abs() + 1e-5, inputs);
+    }
     let n = if cfg.tier == Tier::Quick { 3000 } else { 200_000 };
     let mut acc = Acc::new("c04_float_quaternions");
     for i in 0..n {
@@ -268,6 +289,13 @@ pub fn native_floats(cfg: &cgv_core::fw::RunCfg, extra: &mut cgv_core::fw::Extra
             run::<f32>("f32", p, q, v, &mut local, &inputs);
             inverse::<f64>("f64", qi, k64, &mut local, &inputs);
             inverse::<f32>("f32", qi, k32, &mut local, &inputs);
+            if i % 8 == 0 {
+                let which = (i / 8 % 3) as usize;
+                let frac = 0.5 + 0.25 * ((i / 24 % 10) as f64) / 10.0;
+                let angle = [0.0, 1e-3, -2e-4, 1e-6][(i / 8 % 4) as usize];
+                large_vector::<f64>("f64", which, frac, angle, &mut local, &inputs);
+                large_vector::<f32>("f32", which, frac, angle, &mut local, &inputs);
+            }
             local
         }) {
             Ok(l) => {
